@@ -147,3 +147,207 @@ def native_roundtrip(n):
 
 def replay(data):
     return isolated(native_roundtrip, data.get('n', 4000), timeout=300)
+
+# ------------------------------------------------------------------------------------------------------------------------------
+# termination of the argument-reduction loops of the Stumpff kernels, on full binary64
+
+class AllTrueCtx(PathCtx):
+    def branch(s, c):
+        if isinstance(c, int): return bool(c)
+        c = z3.simplify(c)
+        if z3.is_true(c): return True
+        if z3.is_false(c): return False
+        s.decisions.append(True); s.pc.append(c); return True
+
+HANG_INPUT = dict(m0=2.5893497258725438, a=-250.00114392285425, e=1.0000133034032341, dt_periods=-0.00295)
+
+def native_hang(inp=HANG_INPUT, seconds=20):
+    """public API: WHFast, one star + one massless body on a barely hyperbolic orbit at pericentre, one backward step.  Newton's
+    iteration diverges to X = -inf and the next stiefel_Gs3 call spins in the argument-reduction loop."""
+    def go():
+        import c11
+        N_ = c11.nat(); L = N_.L
+        ns = N_.create(); ns.add(m=inp['m0'])
+        err, p = c11.native_particle(1.0, inp['m0'], 0.0, inp['a'], inp['e'], 0.0, 0.0, 0.0, 0.0)
+        ns.add(**p)
+        P_ = 2 * math.pi * math.sqrt(abs(inp['a']) ** 3 / inp['m0'])
+        ns.set('integrator', L.enumerators['REB_INTEGRATOR_WHFAST']); ns.set('dt', inp['dt_periods'] * P_)
+        ns.call('reb_simulation_step')
+        return [ns.particle(1).get(c) for c in ('x', 'y', 'z', 'vx', 'vy', 'vz')]
+    try:
+        out = isolated(go, timeout=seconds)
+        bad = any(v != v for v in out)
+        return bad, "native WHFast step of %r returns %r" % (inp, out)
+    except NativeCrash as e:
+        return True, "native WHFast step of %r (public API, one reb_simulation_step) does not return within %d s (killed): the argument-reduction loop of the Stumpff kernel spins on a non-finite argument" % (inp, seconds)
+
+def run_termination(u):
+    fn = u['fn']; rep = Report(); label = "%s argument-reduction loop " % fn
+    dom = FP(); seen = []
+    class Done(Exception): pass
+    def note(t):
+        if not any(t is q or (z3.is_expr(t) and z3.is_expr(q) and t.eq(q)) for q in seen): seen.append(t)
+        if len(seen) >= 2: raise Done()
+    orig = dom.libm
+    def libm(name, args):
+        if name == 'fabs' and not isinstance(args[0], float): note(args[0])
+        return orig(name, args)
+    dom.libm = libm
+    ctx = AllTrueCtx(); I = new_interp(dom, ctx)
+    I.stubs['@fastabs'] = lambda I_, x: (abs(x) if isinstance(x, float) else (note(x), z3.fpAbs(x))[1])
+    z = dom.fresh('z')
+    cs = I.mem.alloc(8 * 6, 'cs', 'harness', zero=True)
+    try:
+        I.call('@' + fn, [cs, z]); rep.errors.append(label + "loop not entered twice"); return rep
+    except Done: pass
+    rep.paths += 1; rep.add_interp(I)
+    z0, z1 = seen[0], seen[1]
+    ob = Obligations(rep, Prover(t_inproc_ms=u.get('t_ms', 60000), use_external=True, t_ext_s=120), label)
+    def on_sat(model):
+        bad, detail = native_hang()
+        return bad, 'C03:stumpff:nonterminating-reduction', detail + " (solver model: z = %s)" % model[z], dict(kind='hang')
+    # ranking argument: while the loop continues |z| strictly decreases; there are finitely many doubles, so it terminates
+    ob.prove("whenever the loop body runs, |z| strictly decreases (ranking function on binary64: termination for EVERY double, including inf and NaN)", z3.fpLT(z3.fpAbs(z1), z3.fpAbs(z0)), list(ctx.pc), on_sat=on_sat, domain='FP(11,53)', sample=dict(loop_conditions=[str(c)[:120] for c in ctx.pc]))
+    ob.witness("loop entered", list(ctx.pc))
+    return rep
+
+def replay_hang(data):
+    return native_hang()
+
+# ------------------------------------------------------------------------------------------------------------------------------
+# the bisection step when the Stiefel functions overflow (binary64 semantics)
+
+class ForcedCtx(PathCtx):
+    """Newton convergence tests: not converged; then a forced script of decisions for the first bisection iteration"""
+    def __init__(s, facts):
+        PathCtx.__init__(s); s.light = z3.Solver(); s.light.set('timeout', 2000); s.forced = None
+        for f in facts: s.light.add(f)
+    def branch(s, c):
+        if isinstance(c, int): return bool(c)
+        c = z3.simplify(c)
+        if z3.is_true(c): return True
+        if z3.is_false(c): return False
+        if s.forced is not None:
+            d = s.forced.pop(0) if s.forced else True
+        elif _mentions_G(c): d = False
+        else:
+            t = s.light.check(c) != z3.unsat; f = s.light.check(z3.Not(c)) != z3.unsat
+            d = True if (t and not f) else False
+        s.decisions.append(d); s.pc.append(c if d else z3.Not(c)); return d
+
+STATES = {   # a = -1, M = 1 hyperbolic orbits, e = 1.1: at pericentre (r.v = 0), incoming (r.v < 0), outgoing (r.v > 0)
+    'pericentre': (0.10000000000000009, 0.0, 0.0, 0.0, 4.58257569495584, 0.0),
+    'incoming': (-1.6212738415460744, -3.2906874570182433, 0.0, 0.9155960998571262, 0.7339739294101026, 0.0),
+    'outgoing': (-1.6212738415460744, 3.2906874570182433, 0.0, -0.9155960998571262, 0.7339739294101026, 0.0),
+}
+
+def overflow_runs(state, sign):
+    import itertools
+    out = []
+    nb = 1 + (nmax_newt() - 1)
+    for script in itertools.product((True, False), repeat=3):
+        dom = FP(); d = z3.FP('d', dom.sort)
+        ctx = ForcedCtx([z3.fpGT(d, z3.FPVal(0.0, dom.sort)), z3.Not(z3.fpIsInf(d)), z3.Not(z3.fpIsNaN(d))]); I = new_interp(dom, ctx); I.loop_bound = 200
+        orig = dom.libm
+        sim = Sim(I); sim.add(m=1.0)
+        L = build.layout(); psz = L.structs['reb_particle']['size']
+        pj = I.mem.alloc(psz, 'p_j', 'harness', zero=True); pv = SimView(I, pj, 'reb_particle')
+        for c, t in zip(('x', 'y', 'z', 'vx', 'vy', 'vz'), STATES[state]): pv.set(c, t)
+        calls = []; G33 = {}
+        def gs3(I_, gs, beta, X, ctx=ctx, calls=calls, G33=G33, dom=dom, script=script):
+            calls.append(X)
+            if len(calls) == nb + 2: raise Stop()
+            if len(calls) == nb + 1: ctx.forced = list(script) + [True] * 4; G33['pcidx'] = len(ctx.pc)
+            for k in range(4):
+                g = z3.FP('G%d_%d' % (k, len(calls)), dom.sort)
+                if len(calls) == nb + 1: G33[k] = g
+                I_.mem.store(Ptr(gs.obj, gs.off + 8 * k), F64, g)
+            return None
+        I.stubs['@stiefel_Gs3'] = gs3
+        I.stubs['@fastabs'] = lambda I_, x: (abs(x) if isinstance(x, float) else z3.fpAbs(x))
+        try: I.call('@reb_whfast_kepler_solver', [sim.ptr, pj, 1.0, 0, d if sign > 0 else z3.fpNeg(d)])
+        except Stop: pass
+        if len(calls) < nb + 2: continue
+        key = tuple(ctx.decisions)
+        if any(key == o[0] for o in out): continue
+        out.append((key, I, dom, ctx, d, calls[nb], calls[nb + 1], G33))
+    return out
+
+def exact_hyperbolic(a, e, M, t):
+    n = math.sqrt(M / abs(a) ** 3); Ma = n * t
+    H = math.asinh(Ma / e) if abs(Ma) < 5 else math.copysign(math.log(2 * abs(Ma) / e + 1.8), Ma)
+    for _ in range(200):
+        F = e * math.sinh(H) - H - Ma; H -= F / (e * math.cosh(H) - 1)
+    r = abs(a) * (e * math.cosh(H) - 1)
+    return (abs(a) * (e - math.cosh(H)), abs(a) * math.sqrt(e * e - 1) * math.sinh(H), -abs(a) * n * abs(a) * math.sinh(H) / r, abs(a) * math.sqrt(e * e - 1) * n * abs(a) * math.cosh(H) / r)
+
+def native_long_steps():
+    """native reb_whfast_kepler_solver against the closed-form hyperbolic solution: long steps (the bisection bracket reaches abscissae at
+    which the Stiefel functions overflow) from pericentre, the incoming and the outgoing leg, both directions"""
+    global _nat
+    if _nat is None: _nat = Native()
+    N_ = _nat
+    f = N_.lib.reb_whfast_kepler_solver; f.restype = None; f.argtypes = [ctypes.c_void_p, ctypes.c_void_p, ctypes.c_double, ctypes.c_uint, ctypes.c_double]
+    ns = N_.create(); bad = []; n = 0
+    try:
+        buf = (ctypes.c_char * N_.psize)(); pv = NView(N_, ctypes.addressof(buf), 'reb_particle')
+        for e in (1.05, 1.1, 1.5):
+            for k in (30, 100, 1000):
+                for sg in (1, -1):
+                    for t0 in (0.0, -3.0, 2.0):
+                        dt = sg * k * 2 * math.pi
+                        x0, y0, vx0, vy0 = exact_hyperbolic(-1.0, e, 1.0, t0)
+                        for c, v in zip(('x', 'y', 'z', 'vx', 'vy', 'vz'), (x0, y0, 0.0, vx0, vy0, 0.0)): pv.set(c, v)
+                        f(ns.addr, ctypes.addressof(buf), 1.0, 0, dt); n += 1
+                        xe, ye, _, _ = exact_hyperbolic(-1.0, e, 1.0, t0 + dt)
+                        err = max(abs(pv.get('x') - xe), abs(pv.get('y') - ye)) / math.hypot(xe, ye)
+                        if not err <= 1e-8: bad.append((dict(a=-1.0, e=e, M=1.0, t0=t0, dt=dt), (pv.get('x'), pv.get('y')), (xe, ye)))
+        return bool(bad), "native reb_whfast_kepler_solver vs the closed-form hyperbolic solution on %d long steps: %s" % (n, ("%d wrong, first: input %r gives %r instead of %r" % (len(bad), bad[0][0], bad[0][1], bad[0][2])) if bad else "all agree to 1e-8")
+    finally:
+        ns.free()
+
+def run_overflow(u):
+    rep = Report(); state, sign = u['state'], u['sign']
+    label = "kepler_solver bisection step with overflowed Stiefel functions (%s, dt %s 0) " % (state, '>' if sign > 0 else '<')
+    try: runs = overflow_runs(state, sign)
+    except Unsupported as e:
+        rep.errors.append(label + repr(e)); return rep
+    if not runs: rep.errors.append(label + "bisection fallback not reached"); return rep
+    prover = Prover(t_inproc_ms=u.get('t_ms', 60000), use_external=True, t_ext_s=120)
+    far_feasible = 0
+    for key, I, dom, ctx, d, X0, X1, G in runs:
+        rep.paths += 1; rep.add_interp(I)
+        ob = Obligations(rep, prover, label + "path%d " % rep.paths)
+        X0 = dom.z(X0); X1 = dom.z(X1)
+        # which end did this path replace?  evaluate the two abscissae at d = 1 (they do not depend on the G values)
+        num = lambda t: z3.simplify(z3.substitute(t, (d, z3.FPVal(1.0, dom.sort))))
+        x0n, x1n = num(X0), num(X1)
+        if not (z3.is_fp_value(x0n) and z3.is_fp_value(x1n)):
+            rep.errors.append(label + "abscissae depend on more than dt"); continue
+        def fv(v):
+            import struct
+            bv = z3.simplify(z3.fpToIEEEBV(v))
+            return struct.unpack('<d', struct.pack('<Q', bv.as_long()))[0]
+        a0, a1 = fv(x0n), fv(x1n)
+        moved_far = (abs(a1) < abs(a0))
+        pinf = z3.fpPlusInfinity(dom.sort); ninf = z3.fpMinusInfinity(dom.sort)
+        # overflow at abscissa X0: G_k = c_k(beta X^2) X^k with c_k = +inf  ->  G_0 = G_2 = +inf, G_1 = G_3 = sign(X) inf
+        over = [z3.fpGT(d, z3.FPVal(0.0, dom.sort)), z3.fpLT(d, z3.FPVal(1e12, dom.sort)), G[0] == pinf, G[2] == pinf, G[1] == (pinf if sign > 0 else ninf), G[3] == (pinf if sign > 0 else ninf)]
+        mine = list(ctx.pc[G['pcidx']:])          # every decision of the first bisection iteration
+        pc = mine
+        def on_sat(model):
+            bad, detail = native_long_steps()
+            return bad, 'C03:kepler_solver:bisection-overflow', detail, dict(kind='overflow')
+        # reachability witness: existence only, so the step length may be fixed (dt = +-200)
+        fix = lambda t: z3.substitute(t, (d, z3.FPVal(200.0, dom.sort)))
+        chk = Prover(t_inproc_ms=60000, use_external=False).check([fix(t) for t in over + pc]); rep.queries += 1
+        if chk.status == 'sat': far_feasible += 1
+        if moved_far: pass
+        else:
+            ob.prove("when the Stiefel functions overflow at the trial abscissa (which then lies beyond the root) the bisection never replaces the NEAR end of the bracket (this path does: its condition must be unsatisfiable)",
+                     z3.BoolVal(False), over + pc, on_sat=on_sat, domain='FP(11,53)', sample=dict(decisions=[bool(b) for b in key[-5:]], conditions=[str(c)[:160] for c in mine]))
+    if far_feasible: rep.witnesses += 1
+    else: rep.vacuous.append(label + "no explored path is feasible under the overflow assumption")
+    bad, detail = native_long_steps(); rep.replays += 1
+    if bad: rep.violations.append(dict(key='C03:kepler_solver:bisection-overflow', what=detail, replay=dict(kind='overflow'), obligation=label + 'native twin'))
+    return rep
